@@ -80,7 +80,7 @@ class C12(Check):
             out += [("pre3", i, j, l, k) for i in range(5) for j in range(5) for l in range(5)]
         return out
 
-    def check_scaffold(self, spec, ctx, two=False, orders=("asc", "desc")):
+    def check_scaffold(self, spec, ctx, two=False, orders=("asc", "desc", "asc-after-refused-add")):
         """
         every query on ONE IndexedAssembly object per order (ascending and descending), so a lookup
         that depends on earlier lookups on the same object shows up as well
@@ -91,11 +91,22 @@ class C12(Check):
             if two:
                 scaffolds = [build([ALPHA[0], ALPHA[4], ALPHA[1]], name="other"), scffld]
             ia = IndexedAssembly("t", scaffolds=scaffolds)
+            if order == "asc-after-refused-add":
+                # history: a different scaffold with the same name is offered and refused; the one held must stay usable
+                try:
+                    ia.add_scaffold(build([ALPHA[1], ALPHA[3], ALPHA[3], ALPHA[2], ALPHA[0]], name=scffld.name))
+                except ValueError:
+                    pass
+                else:
+                    ctx.count("duplicate_name_add_accepted")
+                    continue
             ln = scffld.length
             has_gap = any(k == "G" for k, _, _ in spec)
             queries = [(a, b) for a in range(1, ln + 3) for b in range(a, ln + 3)]
             if order == "desc":
                 queries.reverse()
+            if order == "asc-after-refused-add" and len(queries) > 40:
+                queries = queries[:: len(queries) // 40]
             for a, b in queries:
                 self.check_query(spec, scffld, ia, a, b, ctx, two, has_gap, order)
 
@@ -220,4 +231,4 @@ class C12(Check):
 
 CHECK = C12()
 # scope added in later rounds, kept in the evidence text
-CHECK.rule += ' Huge family: rows with coordinates around 2^32.'
+CHECK.rule += ' Huge family: rows with coordinates around 2^32. A third query order after add_scaffold() was offered (and refused) a different scaffold with the same name.'
